@@ -390,4 +390,12 @@ def do_replay(path):
 
 
 if __name__ == "__main__":
-    sys.exit(main())
+    try:
+        code = main()
+    except SystemExit:
+        raise
+    except BaseException as e:  # a crash of the checker is a checker fault (3), never a violation
+        traceback.print_exc()
+        print(f"psvc: checker fault: {type(e).__name__}: {e} -> exit 3")
+        code = 3
+    sys.exit(code)
